@@ -217,6 +217,7 @@ def feature_circuits():
                    ("x", G.XOR, ("ge", "t", "a")), ("ln", G.LNOT, ("x", "b")), ("o", G.NAND, ("ln", "lt"))], ["o", "x", "c"])
     out.append(("deepcopied_mixed_types", copy.deepcopy(mixed)))
     out.append(("pickled_mixed_types", pickle.loads(pickle.dumps(mixed))))
+    out.append(("deepcopied_unused_input_dead_gate", copy.deepcopy(build(["a", "b", "c"], [("g", G.AND, ("a", "b")), ("dead", G.OR, ("a", "g"))], ["g"]))))
     out.append(("deepcopied_bench_types", copy.deepcopy(build(["a", "b"], [("n", G.NOT, ("a",)), ("g", G.AND, ("n", "b")), ("o", G.OR, ("g", "a")), ("x", G.NXOR, ("o", "n"))], ["x", "g"]))))
     return out
 
